@@ -3,7 +3,7 @@
 set -u
 cd "$(dirname "$0")/.."
 P=$1
-tools/mergeext.sh $P | tail -3
+tools/mergeext.sh $P | tail -3; git rev-parse -q --verify MERGE_HEAD >/dev/null || { echo "NOT MERGED (working tree not clean?)"; exit 1; }
 python3 tools/resolve_main.py && git add lean/Main.lean lean/CnvVerif.lean
 U=$(git diff --name-only --diff-filter=U); if [ -n "$U" ]; then echo "UNRESOLVED: $U"; exit 1; fi
 /venv/bin/python tools/register.py > /var/tmp/register.out 2>&1 || { tail -5 /var/tmp/register.out; exit 1; }
